@@ -178,6 +178,7 @@ Plan sloppy_generate(uint64_t base, const std::string &prop, uint64_t index, int
     gen_sloppy_ops(ro, p.ops, 1 + (int)ro.below(60), names, p.doc.size(), p.root, true);
     p.faults.push_back("F8:faulty_caller");
     if (prop != "C16" && ro.chance(1, 5)) p.par["nocb"] = 1;      // an application without a token callback
+    if (prop == "C16" && ro.chance(1, 2)) p.par["unguarded"] = 1;   // termination is promised for ANY call sequence, also lookups issued outside an object
     if (getenv("VERIF_GUARD")) p.par["guard"] = 1;                 // delivered buffer ends at a PROT_NONE page (plain build cross-check of ASan)
     return p;
 }
@@ -189,6 +190,7 @@ Result sloppy_execute(const Plan &p, const ExecCtx &c) {
     PSession ps(tr, sink, r.cnt);
     ps.setup(p.max_depth, p.prefill, p.doc, p.root != 0, (int)p.P("guard", 0));
     ps.use_cb = !p.P("nocb");
+    if (p.P("unguarded")) ps.guard_lookups = false;
     uint64_t trues = 0;
     bool other_error = false;
     for (auto &op : p.ops) {
